@@ -22,12 +22,17 @@
                     prefix of the applied ones;
          session    within a session the sent list only grows;
          end to end the update messages sent up to and including the flush frame are a prefix of the applied ones when the
-                    event (or any event with a stamp not older) is observed;
+                    event (or any event with a stamp not older) is observed; with distinct sequence numbers
+                    (`seqs_distinct`) the observed event numbered q IS the flushed message numbered q
+                    (C04E_end_to_end_event; uses the ledger of Properties/C05E.v);
+         entity     a delivered mapped event / trigger target names a mapped server entity, and a replica it is mapped to
+                    is the replica of that very entity (C04E_entity);
          structure  then the client's structure is empty or `struct_vis` of a server state of the session whose tick is the
                     client's update tick, not before the stamp (C03F_every_moment at that moment).
        Run invariant: `tinv` (Events/RemoteRunTick_proofs.v): every stamped message in flight, received or queued by a live
        connection carries 0 or the tick of an update message sent to it in this session (`lc_stamps`).
-   Proofs: Events/RemoteRunProj_proofs.v, Events/RemoteRunTick_proofs.v, Events/RemoteRunE1_proofs.v. *)
+   Proofs: Events/RemoteRunProj_proofs.v, Events/RemoteRunTick_proofs.v, Events/RemoteRunE1_proofs.v,
+   Events/RemoteRunE2_proofs.v (C04E_end_to_end_event). *)
 From Coq Require Import Sorted.
 From RV Require Import Lib.Res Repl.ClientTicks Repl.World Vis.Visibility Repl.Server Repl.Client Repl.Sys Tick.RepliconTick
   Repl.StructSpec Repl.StructVisSpec Repl.ClientSys_proofs Repl.ClientStructSpec
@@ -160,6 +165,24 @@ Theorem C04E_structure : forall c n script slot ops emit e1 g1 os1 e o,
        tk <= sv_tick (y_server y1)).
 Proof. exact e1_structure. Qed.
 
+(* entity references: a delivered mapped event / trigger target names a mapped server entity (per step: C04); when the
+   mapped client entity is a replica, it is the replica of THAT server entity, replicated and visible to this client at
+   the client's update tick (no `SMap` operations: `script_okf`) *)
+Theorem C04E_entity : forall c n script slot ops emit e1 g1 os1 e o,
+  let st := ECFrame slot ops emit in
+  escript_ok (script ++ [st]) = true -> tick_frames (proj_script (script ++ [st])) < 2 ^ 31 ->
+  urun (syse_init c n) ug_init script = Ok (e1, g1, os1) -> syse_step e1 st = Ok (e, o) ->
+  emode (script ++ [st]) slot = MLive ->
+  forall ty q se, In (ty, q, Some se) (eo_got o) -> independent ty = false ->
+  exists cl tk, al_get slot (y_clients (e_sys e)) = Some cl /\ al_get se (cl_s2c cl) <> None /\ tk <= cl_upd_tick cl /\
+    forall ks, al_get se (client_struct cl) = Some ks ->
+      exists pre post y1 cl1 ks', proj_script (script ++ [st]) = pre ++ post /\ run (sys_init c n) pre = Ok y1 /\
+        forallb (fun b => negb (ends_session slot b)) post = true /\
+        find_client (y_server y1) slot = Some cl1 /\ sc_authorized cl1 = true /\
+        al_get se (struct_vis (y_server y1) cl1) = Some ks' /\ kinds_equiv ks ks' /\
+        cl_upd_tick cl = sv_tick (y_server y1) /\ tk <= sv_tick (y_server y1).
+Proof. exact e1_entity. Qed.
+
 (* ---------- E1: within a session, and end to end ---------- *)
 
 Theorem C04E_session : forall c n mid script slot e1 g1 os1 e2 g2 os2 c1,
@@ -210,6 +233,7 @@ Theorem C04E_end_to_end_event : forall c n script tick dt cleanup ops parts emit
 Proof. exact e1_end_to_end_seq. Qed.
 
 Print Assumptions C04E_end_to_end_event.
+Print Assumptions C04E_entity.
 Print Assumptions C04E_projection.
 Print Assumptions C04E_projection_from.
 Print Assumptions C04E_projection_step.
@@ -354,6 +378,29 @@ Proof.
               c04e_mid 1 [] [] e1 g1 os1 e2 o2 e3 g3 os3 e4 o4 c2 (proj1 C04E_ex_premises) Hb C04E_ex_seqs E1 E2 E3 E4 eq_refl Ec2 eq_refl
               (mkSMsg SEM (Some 3) 8 (Some 2)) 3 SEM 8 (Some 2) Hin eq_refl eq_refl Hgot eq_refl) as (cl & A1 & A2 & A3 & _ & A5).
   exists e1, g1, os1, e2, o2, e3, g3, os3, e4, o4, cl. auto 10.
+Qed.
+
+(* C04E_entity on the run: entity 2, spawned in the flush tick, is a replica on client 1 when SEM/8 is delivered: it is
+   the server's entity 2 (kinds [0]) at tick 3 *)
+Example C04E_ex_entity :
+  exists e1 g1 os1 e o cl ks,
+    urun (syse_init c04e_cfg 3) ug_init ((c04e_pre ++ [c04e_flush_step]) ++ c04e_mid) = Ok (e1, g1, os1) /\
+    syse_step e1 c04e_last = Ok (e, o) /\ In (SEM, 8, Some 2) (eo_got o) /\
+    al_get 1 (y_clients (e_sys e)) = Some cl /\ al_get 2 (client_struct cl) = Some ks /\
+    exists pre post y1 cl1 ks', proj_script c04e_script = pre ++ post /\ run (sys_init c04e_cfg 3) pre = Ok y1 /\
+      find_client (y_server y1) 1 = Some cl1 /\ al_get 2 (struct_vis (y_server y1) cl1) = Some ks' /\ kinds_equiv ks ks' /\
+      cl_upd_tick cl = sv_tick (y_server y1).
+Proof.
+  destruct (urun (syse_init c04e_cfg 3) ug_init ((c04e_pre ++ [c04e_flush_step]) ++ c04e_mid)) as [[[e1 g1] os1]| |] eqn:E1; [|vm_compute in E1; discriminate..].
+  destruct (syse_step e1 c04e_last) as [[e o]| |] eqn:E2; [|vm_compute in E1; injection E1 as <- _ _; vm_compute in E2; discriminate..].
+  assert (Hgot : In (SEM, 8, Some 2) (eo_got o)).
+  { vm_compute in E1. injection E1 as <- _ _. vm_compute in E2. injection E2 as _ <-. vm_compute. tauto. }
+  assert (Hb : tick_frames (proj_script c04e_script) < 2 ^ 31) by (rewrite (proj1 (proj2 C04E_ex_premises)); reflexivity).
+  destruct (C04E_entity c04e_cfg 3 _ 1 [] [] e1 g1 os1 e o (proj1 C04E_ex_premises) Hb E1 E2 eq_refl SEM 8 2 Hgot eq_refl) as (cl & tk & Hcl & _ & _ & Hent).
+  destruct (al_get 2 (client_struct cl)) as [ks|] eqn:Eks.
+  2:{ exfalso. vm_compute in E1. injection E1 as <- _ _. vm_compute in E2. injection E2 as <- _. vm_compute in Hcl. injection Hcl as <-. vm_compute in Eks. discriminate. }
+  destruct (Hent ks eq_refl) as (pre & post & y1 & cl1 & ks' & A1 & A2 & _ & A4 & _ & A6 & A7 & A8 & _).
+  exists e1, g1, os1, e, o, cl, ks. repeat (split; [first [assumption|reflexivity]|]). exists pre, post, y1, cl1, ks'. auto 10.
 Qed.
 
 (* ---------- why the premises are there ---------- *)
